@@ -31,7 +31,8 @@ func (regWorld) Name() string { return "W-REG" }
 
 var regNamePool = []string{"http://sim.example/psa/a", "http://sim.example/psa/b", "http://sim.example/psa/c", "urn:sim:psa:d",
 	"http://sim.example/psa/e", "https://sim.example/f", "http://sim.example/psa/g", "http://sim.example/h",
-	"ACME_IOT_PROFILE_7", "sim profile 8", "ACME_IOT_PROFILE_7 ", " SIM_PADDED ", "http://sim.example/psa?a=1&b=<2>"}
+	"ACME_IOT_PROFILE_7", "sim profile 8", "ACME_IOT_PROFILE_7 ", " SIM_PADDED ", "http://sim.example/psa?a=1&b=<2>",
+	"1.3.6.1.4.1.4128.42.7", "http://Sim.Example/psa/K"}
 
 // nameVariants: spellings that differ from a name only by letter case or by
 // surrounding white space. They are different names; unless registered
@@ -305,6 +306,17 @@ func buildRegProbes(names []string) []regProbe {
 			add(regProbe{name: "json/eat-profile=" + n + " (literal spelling)", ser: "json", doc: jsonEdit(j, "eat-profile", lit, false), declares: []string{n}, members: map[string]string{"eat-profile": n}})
 		}
 		add(regProbe{name: "json/psa-profile=" + n, ser: "json", doc: enc(d1, true), declares: []string{n}, members: map[string]string{"psa-profile": n}, p1claim: &n})
+		// a member whose NAME is the empty string is just an unknown member, whatever it holds
+		if j := enc(d2, true); j != nil {
+			add(regProbe{name: "json/eat-profile=" + n + ` +""=PSA_IOT_PROFILE_1`, ser: "json", doc: jsonEdit(j, "", quote(psatoken.Profile1Name), false), declares: []string{n}, members: map[string]string{"eat-profile": n}})
+		}
+		{
+			dq := *p1
+			dq.ProfClaim = nil
+			if j := enc(dq, true); j != nil {
+				add(regProbe{name: `json/no profile member +""=` + n, ser: "json", doc: jsonEdit(j, "", quote(n), false), declares: []string{n}, members: map[string]string{}})
+			}
+		}
 		// a token that is rejected part-way (client id of the wrong type) although it carries every optional claim
 		dfull := *p2
 		dfull.ProfClaim = sp(n)
@@ -358,6 +370,15 @@ func buildRegProbes(names []string) []regProbe {
 				members: map[string]string{"eat-profile": n, "own-profile": n}})
 			add(regProbe{name: "json/opt-profile=" + n, ser: "json", doc: jsonEdit(j, "opt-profile", quote(n), false), declares: []string{n},
 				members: map[string]string{"eat-profile": n, "opt-profile": n}})
+		}
+		// the same documents WITHOUT the member every built-in profile uses: the kind's own
+		// member is then the only thing that says which profile this is
+		if j := enc(d2, true); j != nil {
+			bare := jsonEdit(j, "eat-profile", "", true)
+			for _, m := range []string{"own-profile", "opt-profile", "str-profile", "la-profile", "lb-profile"} {
+				add(regProbe{name: "json/only " + m + "=" + n, ser: "json", doc: jsonEdit(bare, m, quote(n), false), declares: []string{n},
+					members: map[string]string{m: n}})
+			}
 		}
 	}
 	// key 265 present but not a text string, on an otherwise profile-1 shaped claims-set
@@ -490,6 +511,30 @@ func dispatch(p *regProbe) (out dispOutcome) {
 		return dispOutcome{}
 	}
 	return dispOutcome{ok: true, typ: fmt.Sprintf("%T", c), obs: getterObs(c), valid: safely(func() string { return ec(c.Validate()) })}
+}
+
+// directDecodeOK: does a fresh instance of the kind, obtained from its profile
+// object and not through the register, decode the probe's document?
+func directDecodeOK(kind, name string, p *regProbe) (ok bool) {
+	defer func() {
+		if r := recover(); r != nil {
+			ok = false
+		}
+	}()
+	prof := profileOfKind(kind, name)
+	if prof == nil {
+		return false
+	}
+	c := prof.GetClaims()
+	u, is := c.(unmarshalBoth)
+	if !is {
+		return false
+	}
+	buf := append([]byte{}, p.doc...)
+	if p.ser == "cbor" {
+		return u.UnmarshalCBOR(buf) == nil
+	}
+	return u.UnmarshalJSON(buf) == nil
 }
 
 func dispatchValidating(p *regProbe) (ok bool, c psatoken.IClaims) {
@@ -965,6 +1010,24 @@ func (regWorld) Exec(prop string, t *Trace) *Result {
 				if !exists {
 					if goodKind(kind) {
 						model[name] = kind
+						if c16 {
+							// ... and the lookups that DO declare it are now answered by it
+							for j := range probes {
+								k, strong, wantErr := refKind(&probes[j])
+								if !strong || wantErr || k != kind || nameOfKind(&probes[j], kind) != name {
+									continue
+								}
+								// only documents the kind's own decoder takes (no register involved) must now decode
+								if probes[j].ser == "cose" || !directDecodeOK(kind, name, &probes[j]) {
+									continue
+								}
+								res.Probes["registration_effect_checked"]++
+								if !strings.HasPrefix(after[j], "ok|"+kindType[kind]+"|") {
+									res.violate("C16", "registration-without-effect", "", i, "after registering %q (kind %s), %s - which declares it - is still answered with: %s", name, kind, label(j), string(head([]byte(after[j]), 200)))
+									break
+								}
+							}
+						}
 					} else {
 						// the library accepted a profile the model says it must refuse: keep dispatching
 						// consistent with what a correct library would have (nothing registered)
